@@ -17,5 +17,11 @@ CLAIMED = {
   "note": "bounded-exhaustive + mutation-based string exploration; says nothing about strings outside the alphabets/mutation neighbourhoods; exception origin is taken from the innermost traceback frame",
   "technique": "runtime monitoring: exception-origin classifier over exhaustive/mutated input strings at the parser boundary",
  },
+ "C01": {
+  "text": "Held on every observed execution: for each generated circuit tree the real get_impedances (object route, parser route, CircuitBuilder route and the Circuit([elements])/Circuit(element)/Circuit(Parallel) overloads) is compared point by point with an extended-complex reference evaluator that walks the intended tree (series add, parallels add as reciprocals, open branch contributes nothing, shorted branch shorts); leaves are the real elements, open leaves come from a user element registered through the public API (Z = 1/G, G = 0), shorts from R = 0 / L = 0. All routes must have the same normal form and the same Z; array evaluation must equal one-frequency-at-a-time and permuted/duplicated-vector evaluation; simulate_spectrum must pair each Z with its own frequency; sub-circuits of containers are checked recursively. Every topology with <=4 (5) leaves x leaf assignments plus random trees to 12 leaves over all 23(+1) element classes.",
+  "design_ref": "DESIGN.md 5/C01",
+  "note": "leaf impedances are trusted here (C02 decides them); K/Ky kept positive to avoid cancellation-dominated comparisons; where a nested connection (or a container sub-circuit) is entirely open the library may raise InfiniteImpedance instead of returning the reference value",
+  "technique": "runtime monitoring: differential check against an executable extended-complex reference model over generated circuit trees and frequency vectors",
+ },
 }
 NOT_APPLICABLE = {}
